@@ -136,7 +136,7 @@ def reference_table(include_corpus=True):
     """Digests of fresh-instance results for the pool (and corpus); computed with a private cache."""
     seams.install()
     al = engine.Alone()
-    docs = list(workload.pool()) + (list(workload.corpus()) if include_corpus else [])
+    docs = list(workload.pool()) + (list(workload.corpus()) + list(workload.dialect_docs()) if include_corpus else [])
     tab = {}
     for name, text in docs:
         row = []
@@ -256,6 +256,11 @@ def run_worker(args):
             done += 1
             prop.account(acc, spec, res)
             count_faults(acc, spec, res)
+            ex, st = acc["extra"], res["stats"]
+            ex["sim_steps"] = ex.get("sim_steps", 0) + st["steps"]
+            ex["tokens_delivered"] = ex.get("tokens_delivered", 0) + st["toks"]
+            ex["scanner_reads"] = ex.get("scanner_reads", 0) + st["reads"]
+            ex["context_switches_inside_a_parse"] = ex.get("context_switches_inside_a_parse", 0) + st["switches_inside"]
             if sampled and index < args.get("det_sample", DET_SAMPLE):
                 dg[str(index)] = [res["digest"], res["sched_digest"], bool(res["violations"])]
             if res["violations"]:
@@ -346,7 +351,7 @@ def run_check(pid, tier, seed, nworkers):
             if t["table"] != ref:
                 bad = [k for k in ref if ref[k] != t["table"].get(k)]
                 problems.append(("det", "fresh-interpreter results differ between PYTHONHASHSEEDs for documents %s" % bad[:5]))
-        refpool = {k: v for k, v in ref.items() if not (k.startswith("good/") or k.startswith("bad/"))}
+        refpool = {k: v for k, v in ref.items() if not (k.startswith("good/") or k.startswith("bad/") or k.startswith("dialect/"))}
         for r in workers + shadows:
             if r["table_start"] != refpool:
                 bad = [k for k in refpool if refpool[k] != r["table_start"].get(k)]
@@ -504,7 +509,8 @@ def write_evidence(prop, tier, seed, merged, wall_s, violations, known_hits, nwo
                      "stream.SourceEvents/source_event", "scripts.generate_events.main", "CPython TextIOWrapper/BufferedReader"],
             "stub": ["raw byte source and directory (SimRaw, SimFS)", "thread scheduler (baton-passing kernel)", "consumer of the stream"],
         },
-        "simulated_time": "none: the package has no clock; steps/tokens are reported instead",
+        "simulated_time": "none: the package has no clock or timer; scheduler steps (sim_steps), tokens delivered and scanner reads are reported instead",
+        "run_seeds": "splitmix64(VERIF_SEED, '<property>/<scenario>', run index); enumerated scenarios are seed-independent",
     }
     for k, v in merged["extra"].items():
         cov[k] = len(v) if isinstance(v, set) else v
